@@ -1,6 +1,7 @@
 package node
 
 import (
+	"github.com/NethermindEth/juno/blockchain"
 	"strconv"
 
 	"github.com/NethermindEth/juno/core"
@@ -47,6 +48,40 @@ func eventQueries(k *checker, g *chaingen.Gen, nq int, around uint64) {
 		lim := evLimits[c.T.Draw("ev.limit", len(evLimits))]
 		k.CheckEvents(f, []uint64{ch, 1000}, []uint{lim, 0})
 	}
+	if around == 0 && c.T.Draw("q.preconfirmed", 3) == 2 {
+		preconfirmedQuery(k, g)
+	}
+}
+
+// preconfirmedQuery puts one to three pre-confirmed blocks on top of the head (generated on a
+// side fork, never stored) and asks for a range that reaches into them.
+func preconfirmedQuery(k *checker, g *chaingen.Gen) {
+	c, t := k.n.c, k.n.c.T
+	head := k.m.Head()
+	var pre []*chaingen.Block
+	parent := head
+	for i, n := 0, 1+t.Draw("pre.blocks", 3); i < n; i++ {
+		o := chaingen.Opts{Version: head.Version, Salt: 900000 + uint64(i), MaxTxs: 3, MaxEvents: 3, MaxDiff: 1, NoClasses: true}
+		parent = g.Next(t, parent, o)
+		pre = append(pre, parent)
+	}
+	tip := head.B.Number + uint64(len(pre))
+	f := genFilter(c, g, tip)
+	switch t.Draw("pre.range", 4) {
+	case 0: // everything up to the pre_confirmed tag
+		f.to = blockchain.PreConfirmedFilterSentinel
+	case 1: // from inside the canonical chain into the pre-confirmed blocks
+		f.from = uint64(t.Draw("pre.from", int(head.B.Number)+1))
+		f.to = head.B.Number + uint64(1+t.Draw("pre.to", len(pre)))
+	case 2: // pre-confirmed blocks only
+		f.from = head.B.Number + uint64(1+t.Draw("pre.from2", len(pre)))
+		f.to = blockchain.PreConfirmedFilterSentinel
+	default: // whatever the generic generator drew over [0, tip]
+	}
+	ch := evChunks[t.Draw("ev.chunk", len(evChunks))]
+	lim := evLimits[t.Draw("ev.limit", len(evLimits))]
+	k.CheckEventsPre(f, pre, []uint64{ch, 1000}, []uint{lim, 0})
+	c.Probe("preconfirmed_query")
 }
 
 func minU64(a, b uint64) uint64 {
